@@ -443,6 +443,17 @@ impl KotoVm {
 
     /// Provides the result of running a unary operation on a KValue
     pub fn run_unary_op(&mut self, op: UnaryOp, value: KValue) -> Result<KValue> {
+        // The result register is the first register pushed by the operation; if the operation
+        // fails before its registers have been discarded then discard them here.
+        let result_register = self.next_register();
+        let result = self.run_unary_op_inner(op, value);
+        if result.is_err() {
+            self.truncate_registers(result_register);
+        }
+        result
+    }
+
+    fn run_unary_op_inner(&mut self, op: UnaryOp, value: KValue) -> Result<KValue> {
         use UnaryOp::*;
 
         let old_frame_count = self.call_stack.len();
@@ -482,6 +493,17 @@ impl KotoVm {
 
     /// Provides the result of running a binary operation on a pair of Values
     pub fn run_binary_op(&mut self, op: BinaryOp, lhs: KValue, rhs: KValue) -> Result<KValue> {
+        // The result register is the first register pushed by the operation; if the operation
+        // fails before its registers have been discarded then discard them here.
+        let result_register = self.next_register();
+        let result = self.run_binary_op_inner(op, lhs, rhs);
+        if result.is_err() {
+            self.truncate_registers(result_register);
+        }
+        result
+    }
+
+    fn run_binary_op_inner(&mut self, op: BinaryOp, lhs: KValue, rhs: KValue) -> Result<KValue> {
         let old_frame_count = self.call_stack.len();
 
         let result_register = self.next_register();
@@ -559,6 +581,22 @@ impl KotoVm {
         container: KValue,
         read_arg: KValue,
     ) -> Result<KValue> {
+        // The result register is the first register pushed by the operation; if the operation
+        // fails before its registers have been discarded then discard them here.
+        let result_register = self.next_register();
+        let result = self.run_read_op_inner(op, container, read_arg);
+        if result.is_err() {
+            self.truncate_registers(result_register);
+        }
+        result
+    }
+
+    fn run_read_op_inner(
+        &mut self,
+        op: ReadOp,
+        container: KValue,
+        read_arg: KValue,
+    ) -> Result<KValue> {
         let old_frame_count = self.call_stack.len();
 
         let result_register = self.next_register();
@@ -587,6 +625,23 @@ impl KotoVm {
 
     /// Provides the result of running a write operation (i.e. via access or index)
     pub fn run_write_op(
+        &mut self,
+        op: WriteOp,
+        container: KValue,
+        write_arg: KValue,
+        write_value: KValue,
+    ) -> Result<KValue> {
+        // The result register is the first register pushed by the operation; if the operation
+        // fails before its registers have been discarded then discard them here.
+        let result_register = self.next_register();
+        let result = self.run_write_op_inner(op, container, write_arg, write_value);
+        if result.is_err() {
+            self.truncate_registers(result_register);
+        }
+        result
+    }
+
+    fn run_write_op_inner(
         &mut self,
         op: WriteOp,
         container: KValue,
